@@ -32,7 +32,11 @@ import (
 // ---------------- HTML: 2^7 option combinations x 4 delimiter sets ----------------
 
 var htmlPieces = []string{`<p>a</p>`, `<ul><li>x</li><li>y</li></ul>`, `<!-- c -->`, `<!--[if IE]><p>i</p><![endif]-->`, `<!--#include virtual="f" -->`, `<input type="text" value="v" disabled="disabled">`, `<a href="u" class='c d' title=t>t</a>`, ` `, `text `, ` more`,
-	`<table><tr><td>1</td><td>2</td></tr></table>`, `<script type="text/javascript">x</script>`, `<b> x </b>`, `<form method="get" action="">f</form>`, `<span> s </span> <em>e</em>`, `<style type="text/css">s{}</style>`, `<td colspan="1">c</td>`, `<option selected="selected">o</option>`, `<dl><dt>t</dt><dd>d</dd></dl>`, "\n"}
+	`<table><tr><td>1</td><td>2</td></tr></table>`, `<script type="text/javascript">x</script>`, `<b> x </b>`, `<form method="get" action="">f</form>`, `<span> s </span> <em>e</em>`, `<style type="text/css">s{}</style>`, `<td colspan="1">c</td>`, `<option selected="selected">o</option>`, `<dl><dt>t</dt><dd>d</dd></dl>`, "\n",
+	// every element whose end tag is omissible appears at least once (KeepEndTags)
+	`<select><optgroup label="l"><option>1</option></optgroup><optgroup label="m"><option>2</option></optgroup></select>`,
+	`<table><thead><tr><th>h</th></tr></thead><tbody><tr><td>1</td></tr></tbody><tfoot><tr><td>f</td></tr></tfoot></table>`,
+	`<ruby>a<rb>b</rb><rt>c</rt><rtc>d</rtc><rp>e</rp></ruby>`}
 
 var delimSets = [][2]string{{"", ""}, {"{{", "}}"}, {"<%", "%>"}, {"<?", "?>"}}
 
@@ -557,7 +561,7 @@ func runCLI(c *core.Check) {
 
 // Run executes C16.
 func Run(c *core.Check) {
-	c.Rule = "HTML: every sequence of <=2 (thorough <=3) of 20 document pieces (optional end tags, comments, conditional and SSI comments, default attribute values, quoted attributes, inline white space, raw text) with and without document tags x all 128 combinations of the 7 Keep options x 4 template delimiter sets, with one kept-construct oracle per enabled option on the raw token stream (x/net tokenizer); JS: 60 programs (every rewrite that introduces newer syntax, newer syntax already in the input) x KeepVarNames x target versions 0,5,2015..2022, output parsed by acorn at max(target, least version accepting the input); numbers: 29 lexemes x 7 precisions x 7 hosts with the C08 tolerance, KeepCSS2 (no exponents, no 4/8-digit hex), KeepNumbers; SVG KeepComments; each CLI flag against the library field"
+	c.Rule = "HTML: every sequence of <=2 (thorough <=3) of 23 document pieces (optional end tags, comments, conditional and SSI comments, default attribute values, quoted attributes, inline white space, raw text) with and without document tags x all 128 combinations of the 7 Keep options x 4 template delimiter sets, with one kept-construct oracle per enabled option on the raw token stream (x/net tokenizer); JS: 60 programs (every rewrite that introduces newer syntax, newer syntax already in the input) x KeepVarNames x target versions 0,5,2015..2022, output parsed by acorn at max(target, least version accepting the input); numbers: 29 lexemes x 7 precisions x 7 hosts with the C08 tolerance, KeepCSS2 (no exponents, no 4/8-digit hex), KeepNumbers; SVG KeepComments; each CLI flag against the library field"
 	c.Assumptions = []string{"acorn's ecmaVersion gating as the definition of 'syntax newer than version V'", "the semantic guarantees under option combinations are checked by C01 (8 configurations), C03 (9 option sets), C04 (KeepCSS2 x inline), C06/C07 (both settings)"}
 	pool, err := jsoracle.NewPool(core.Workers())
 	if err != nil {
